@@ -121,7 +121,9 @@ func isHarnessSource(p string) bool {
 	return strings.HasPrefix(p, scen.NominalDir+"/zz_world_") && strings.HasSuffix(p, ".go")
 }
 
-func skipDisk(p string) bool { return isHarnessSource(p) }
+func skipDisk(p string) bool {
+	return isHarnessSource(p) || p == LinkStore || strings.HasPrefix(p, LinkStore+"/")
+}
 
 // RunWorld executes the world and returns the first violation, if any.
 var textTrigger = regexp.MustCompile(`(?m)^(\[(Test|Benchmark|Fuzz).* - \d+\]|/-/-/-/)$`)
@@ -434,6 +436,9 @@ func (st *wstate) runLifetime(i int, l *scen.Lifetime) {
 	}
 	if l.PreEdit > 0 {
 		st.preEdit(l.PreEdit)
+	}
+	if l.PreLink > 0 {
+		st.preLink(l.PreLink)
 	}
 	before, err := world.ReadDisk(st.root, skipDisk)
 	if err != nil {
@@ -1011,6 +1016,50 @@ func (st *wstate) preCorrupt(n int) {
 	st.corrupted[p] = true
 	st.out.Stats.Faults["storage:"+kind]++
 	st.out.Stats.Probes["fault_fired"]++
+}
+
+// LinkStore is where preLink keeps the files it replaces by symbolic links (never
+// compared: what counts is what the snapshot directories show).
+var LinkStore = scen.NominalDir + "/" + world.LinkStoreName
+
+// preLink replaces one predicted snapshot file by a symbolic link to the same content
+// kept elsewhere; reading, appending, rewriting and truncating follow the link, so the
+// file stays predicted under its name.
+func (st *wstate) preLink(n int) {
+	var files []string
+	for p, f := range st.d.Multi {
+		if !f.Dirty {
+			files = append(files, p)
+		}
+	}
+	for p, s := range st.d.Solo {
+		if !s.Dirty {
+			files = append(files, p)
+		}
+	}
+	sort.Strings(files)
+	if len(files) == 0 {
+		return
+	}
+	p := files[n%len(files)]
+	fi, err := os.Lstat(st.root + p)
+	if err != nil || !fi.Mode().IsRegular() {
+		return
+	}
+	store := st.root + LinkStore
+	if os.MkdirAll(store, 0o755) != nil {
+		return
+	}
+	target := fmt.Sprintf("%s/%d_%s", store, n, filepath.Base(p))
+	if os.Rename(st.root+p, target) != nil {
+		return
+	}
+	if os.Symlink(target, st.root+p) != nil {
+		os.Rename(target, st.root+p)
+		return
+	}
+	st.out.Stats.Faults["storage:file_is_symlink"]++
+	st.out.Stats.Probes["snapshot_file_symlinked"]++
 }
 
 // preEdit inserts extra blank lines into one structurally parseable multi-entry file
